@@ -36,196 +36,234 @@ theorem head_set_zero (pv : List (List Nat)) (x : List Nat) (m : Nat) (h : ((pv.
   | nil => simp at h
   | cons a as => simpa [List.set] using h
 
+theorem frames_head (R : List Nat) (f f' : Frame) (rest : List Frame) (h : ∀ g, g ∈ f :: rest → FrameOK R g)
+    (hf : FrameOK R f → FrameOK R f') : ∀ g, g ∈ f' :: rest → FrameOK R g := by
+  intro g hg
+  simp at hg
+  rcases hg with rfl | hg
+  · exact hf (h f (by simp))
+  · exact h g (by simp [hg])
+
+theorem frameOK_same (R : List Nat) (f f' : Frame) (h1 : f'.moves = f.moves) (h2 : f'.current = f.current)
+    (h3 : f'.lastSearched = f.lastSearched ∨ f'.lastSearched = none) (hp : f'.ply = f.ply) (h : FrameOK R f) : FrameOK R f' := by
+  intro h0
+  obtain ⟨a, b, c⟩ := h (by rw [← hp]; exact h0)
+  refine ⟨by rw [h1]; exact a, by rw [h2]; exact b, ?_⟩
+  rcases h3 with h3 | h3
+  · rw [h3]; exact c
+  · rw [h3]; intro m hm; cases hm
+
 theorem step_inv (R : List Nat) (s s' : AState) (e : Ev) (h : stepEv s e = .ok s') (hi : TInv R s) : TInv R s' := by
   cases e with
   | enter ply d q =>
     simp only [stepEv] at h
-    split at h
-    · split at h <;> try (cases h)
-      refine ⟨hi.root, ?_, hi.pv0, hi.best, hi.bm⟩
-      intro f hf
-      simp at hf
-      subst hf
-      exact frameOK_new R 0
-    · split at h <;> try (cases h)
-      refine ⟨hi.root, ?_, hi.pv0, hi.best, hi.bm⟩
-      intro f hf
-      simp at hf
-      rcases hf with rfl | hf
-      · exact frameOK_new R _
-      · exact hi.frames f (by simp_all)
-  | exit ply v =>
-    simp only [stepEv] at h
-    split at h
-    · rename_i f rest hfr
-      split at h <;> try (cases h)
-      split at h <;> try (cases h)
+    cases hfr : s.frames with
+    | nil =>
+      rw [hfr] at h; simp only [] at h
       split at h <;> try (cases h)
       refine ⟨hi.root, ?_, hi.pv0, hi.best, hi.bm⟩
-      intro g hg
-      exact hi.frames g (by rw [hfr]; exact List.mem_cons_of_mem _ hg)
-    · cases h
-  | moves ply l =>
-    simp only [stepEv] at h
-    split at h
-    · rename_i f rest hfr
-      by_cases hply : f.ply ≠ ply
-      · simp [hply] at h
-      simp only [hply, if_false] at h
-      by_cases hsm : sameMembers l (if ply = 0 then s.rootMoves else genMoves s.pos) = true
-      · simp only [hsm, if_true] at h
-        cases h
+      intro f hf; simp at hf; subst hf; exact frameOK_new R 0
+    | cons f rest =>
+      rw [hfr] at h; simp only [] at h
+      have hfs : ∀ g, g ∈ f :: rest → FrameOK R g := by intro g hg; exact hi.frames g (by rw [hfr]; exact hg)
+      split at h
+      · cases h
         refine ⟨hi.root, ?_, hi.pv0, hi.best, hi.bm⟩
         intro g hg
         simp at hg
         rcases hg with rfl | hg
-        · have hf := hi.frames f (by rw [hfr]; simp)
-          intro h0
-          have h0' : f.ply = 0 := h0
-          have hp0 : ply = 0 := by omega
-          obtain ⟨_, h2, h3⟩ := hf h0'
-          refine ⟨?_, h2, h3⟩
-          intro l' hl' m hm
-          simp at hl'
-          subst hl'
-          have := sameMembers_sub _ _ hsm m hm
-          simp [hp0, hi.root] at this
-          exact this
-        · exact hi.frames g (by rw [hfr]; exact List.mem_cons_of_mem _ hg)
-      · simp [hsm] at h
-    · cases h
+        · intro _; simp
+        · exact hfs g (by simpa using hg)
+      · split at h
+        · split at h <;> try (cases h)
+          refine ⟨hi.root, ?_, hi.pv0, hi.best, hi.bm⟩
+          intro g hg
+          simp at hg
+          rcases hg with rfl | hg
+          · intro _; simp
+          · exact frames_head R f { f with lastSearched := none, childDone := false } rest hfs
+              (frameOK_same R f _ rfl rfl (Or.inr rfl) rfl) g (by simp; exact hg)
+        · cases h
+  | exit ply v =>
+    simp only [stepEv] at h
+    cases hfr : s.frames with
+    | nil => rw [hfr] at h; cases h
+    | cons f rest =>
+      rw [hfr] at h; simp only [] at h
+      have hfs : ∀ g, g ∈ f :: rest → FrameOK R g := by intro g hg; exact hi.frames g (by rw [hfr]; exact hg)
+      split at h <;> try (cases h)
+      split at h <;> try (cases h)
+      split at h <;> try (cases h)
+      refine ⟨hi.root, ?_, hi.pv0, hi.best, hi.bm⟩
+      cases rest with
+      | nil => intro g hg; simp at hg
+      | cons g0 rest' =>
+        exact frames_head R g0 _ rest' (fun g hg => hfs g (List.mem_cons_of_mem _ hg))
+          (frameOK_same R g0 (afterChild g0 f.ply) rfl rfl (Or.inl rfl) rfl)
+  | moves ply l =>
+    simp only [stepEv] at h
+    cases hfr : s.frames with
+    | nil => rw [hfr] at h; cases h
+    | cons f rest =>
+      rw [hfr] at h; simp only [] at h
+      have hfs : ∀ g, g ∈ f :: rest → FrameOK R g := by intro g hg; exact hi.frames g (by rw [hfr]; exact hg)
+      by_cases hply : f.ply ≠ ply
+      · rw [if_pos hply] at h; cases h
+      rw [if_neg hply] at h
+      split at h <;> try (cases h)
+      by_cases hsm : (sameMembers l (if ply = 0 then s.rootMoves else genMoves s.pos) && l.all ((genMoves s.pos).contains ·)) = true
+      · rw [if_pos hsm] at h
+        cases h
+        refine ⟨hi.root, ?_, hi.pv0, hi.best, hi.bm⟩
+        apply frames_head R f _ rest hfs
+        intro hf h0
+        have h0' : f.ply = 0 := h0
+        have hp0 : ply = 0 := by omega
+        obtain ⟨_, h2, h3⟩ := hf h0'
+        refine ⟨?_, h2, h3⟩
+        intro l' hl' m hm
+        simp at hl'
+        subst hl'
+        simp only [Bool.and_eq_true] at hsm
+        have := sameMembers_sub _ _ hsm.1 m hm
+        simp [hp0, hi.root] at this
+        exact this
+      · rw [if_neg hsm] at h; cases h
   | doMv ply m =>
     simp only [stepEv] at h
-    split at h
-    · rename_i f rest hfr
+    cases hfr : s.frames with
+    | nil => rw [hfr] at h; cases h
+    | cons f rest =>
+      rw [hfr] at h; simp only [] at h
+      have hfs : ∀ g, g ∈ f :: rest → FrameOK R g := by intro g hg; exact hi.frames g (by rw [hfr]; exact hg)
       split at h <;> try (cases h)
       split at h <;> try (cases h)
-      split at h <;> try (cases h)
-      rename_i l hl
-      split at h <;> try (cases h)
-      rename_i hc
-      refine ⟨hi.root, ?_, hi.pv0, hi.best, hi.bm⟩
-      intro g hg
-      simp at hg
-      rcases hg with rfl | hg
-      · have hf := hi.frames f (by rw [hfr]; simp)
-        intro h0
+      cases hmv : f.moves with
+      | none => rw [hmv] at h; cases h
+      | some l =>
+        rw [hmv] at h; simp only [] at h
+        split at h <;> try (cases h)
+        rename_i hc
+        refine ⟨hi.root, ?_, hi.pv0, hi.best, hi.bm⟩
+        apply frames_head R f _ rest hfs
+        intro hf h0
         obtain ⟨h1, _, h3⟩ := hf h0
-        refine ⟨h1, ?_, h3⟩
+        refine ⟨by intro l' hl'; simp at hl'; subst hl'; exact h1 l hmv, ?_, h3⟩
         intro m' hm'
         simp at hm'
         subst hm'
-        exact h1 l hl m (by simpa using hc)
-      · exact hi.frames g (by rw [hfr]; exact List.mem_cons_of_mem _ hg)
-    · cases h
+        exact h1 l hmv m (by simpa using hc)
   | undoMv ply m =>
     simp only [stepEv] at h
-    split at h
-    · rename_i f rest p ps hfr hsv
+    cases hfr : s.frames with
+    | nil => rw [hfr] at h; cases h
+    | cons f rest =>
+      rw [hfr] at h; simp only [] at h
+      have hfs : ∀ g, g ∈ f :: rest → FrameOK R g := by intro g hg; exact hi.frames g (by rw [hfr]; exact hg)
       split at h <;> try (cases h)
-      split at h <;> try (cases h)
-      rename_i hcur
+      by_cases hcur : f.current ≠ some m ∨ f.nullDone
+      · rw [if_pos hcur] at h; cases h
+      rw [if_neg hcur] at h
+      cases h
+      have hc : f.current = some m := Decidable.not_not.mp (fun hc => hcur (Or.inl hc))
       refine ⟨hi.root, ?_, hi.pv0, hi.best, hi.bm⟩
-      intro g hg
-      simp at hg
-      rcases hg with rfl | hg
-      · have hf := hi.frames f (by rw [hfr]; simp)
-        intro h0
-        obtain ⟨h1, h2, _⟩ := hf h0
-        refine ⟨h1, by simp, ?_⟩
-        intro m' hm'
-        simp at hm'
-        subst hm'
-        exact h2 m (by simpa using hcur)
-      · exact hi.frames g (by rw [hfr]; exact List.mem_cons_of_mem _ hg)
-    · cases h
+      apply frames_head R f _ rest hfs
+      intro hf h0
+      obtain ⟨h1, h2, _⟩ := hf h0
+      refine ⟨h1, by intro m' hm'; simp at hm', ?_⟩
+      intro m' hm'
+      simp at hm'
+      subst hm'
+      exact h2 m hc
   | nullDo ply =>
     simp only [stepEv] at h
-    split at h
-    · rename_i f rest hfr
+    cases hfr : s.frames with
+    | nil => rw [hfr] at h; cases h
+    | cons f rest =>
+      rw [hfr] at h; simp only [] at h
+      have hfs : ∀ g, g ∈ f :: rest → FrameOK R g := by intro g hg; exact hi.frames g (by rw [hfr]; exact hg)
       split at h <;> try (cases h)
       refine ⟨hi.root, ?_, hi.pv0, hi.best, hi.bm⟩
-      intro g hg
-      simp at hg
-      rcases hg with rfl | hg
-      · exact hi.frames f (by rw [hfr]; simp)
-      · exact hi.frames g (by rw [hfr]; exact List.mem_cons_of_mem _ hg)
-    · cases h
+      exact frames_head R f _ rest hfs (frameOK_same R f _ rfl rfl (Or.inl rfl) rfl)
   | nullUndo ply =>
     simp only [stepEv] at h
-    split at h
-    · rename_i f rest p ps hfr hsv
+    cases hfr : s.frames with
+    | nil => rw [hfr] at h; cases h
+    | cons f rest =>
+      rw [hfr] at h; simp only [] at h
+      have hfs : ∀ g, g ∈ f :: rest → FrameOK R g := by intro g hg; exact hi.frames g (by rw [hfr]; exact hg)
       split at h <;> try (cases h)
       refine ⟨hi.root, ?_, hi.pv0, hi.best, hi.bm⟩
-      intro g hg
-      simp at hg
-      rcases hg with rfl | hg
-      · exact hi.frames f (by rw [hfr]; simp)
-      · exact hi.frames g (by rw [hfr]; exact List.mem_cons_of_mem _ hg)
-    · cases h
+      exact frames_head R f _ rest hfs (frameOK_same R f _ rfl rfl (Or.inl rfl) rfl)
   | pvClear ply =>
     simp only [stepEv] at h
-    split at h
-    · rename_i f rest hfr
+    cases hfr : s.frames with
+    | nil => rw [hfr] at h; cases h
+    | cons f rest =>
+      rw [hfr] at h; simp only [] at h
+      have hfs : ∀ g, g ∈ f :: rest → FrameOK R g := by intro g hg; exact hi.frames g (by rw [hfr]; exact hg)
       split at h <;> try (cases h)
       refine ⟨hi.root, ?_, ?_, hi.best, hi.bm⟩
-      · intro g hg
-        simp at hg
-        rcases hg with rfl | hg
-        · exact hi.frames f (by rw [hfr]; simp)
-        · exact hi.frames g (by rw [hfr]; exact List.mem_cons_of_mem _ hg)
+      · exact frames_head R f _ rest hfs (frameOK_same R f _ rfl rfl (Or.inl rfl) rfl)
       · intro m hm
         by_cases hp : ply = 0
         · subst hp
           have := head_set_zero s.pv [] m hm
           simp at this
         · rw [pv_set_other _ _ _ hp] at hm; exact hi.pv0 m hm
-    · cases h
   | pvSet ply m =>
     simp only [stepEv] at h
-    split at h
-    · rename_i f rest hfr
+    cases hfr : s.frames with
+    | nil => rw [hfr] at h; cases h
+    | cons f rest =>
+      rw [hfr] at h; simp only [] at h
+      have hfs : ∀ g, g ∈ f :: rest → FrameOK R g := by intro g hg; exact hi.frames g (by rw [hfr]; exact hg)
+      by_cases hply : f.ply ≠ ply
+      · rw [if_pos hply] at h; cases h
+      rw [if_neg hply] at h
       split at h <;> try (cases h)
-      rename_i hply
-      split at h <;> try (cases h)
-      rename_i l hl
-      split at h <;> try (cases h)
-      rename_i hc
-      refine ⟨hi.root, hi.frames, ?_, hi.best, hi.bm⟩
-      intro m' hm'
-      by_cases hp : ply = 0
-      · subst hp
-        have := head_set_zero s.pv [m] m' hm'
-        simp at this
-        subst this
-        have hf := hi.frames f (by rw [hfr]; simp)
-        have h0 : f.ply = 0 := by omega
-        exact (hf h0).1 l hl m (by simpa using hc)
-      · rw [pv_set_other _ _ _ hp] at hm'; exact hi.pv0 m' hm'
-    · cases h
+      cases hmv : f.moves with
+      | none => rw [hmv] at h; cases h
+      | some l =>
+        rw [hmv] at h; simp only [] at h
+        split at h <;> try (cases h)
+        rename_i hc
+        refine ⟨hi.root, hfs, ?_, hi.best, hi.bm⟩
+        intro m' hm'
+        by_cases hp : ply = 0
+        · subst hp
+          have := head_set_zero s.pv [m] m' hm'
+          simp at this
+          subst this
+          have h0 : f.ply = 0 := by omega
+          exact (hfs f (by simp) h0).1 l hmv m (by simpa using hc)
+        · rw [pv_set_other _ _ _ hp] at hm'; exact hi.pv0 m' hm'
   | pvAdd ply m =>
     simp only [stepEv] at h
-    split at h
-    · rename_i f rest hfr
+    cases hfr : s.frames with
+    | nil => rw [hfr] at h; cases h
+    | cons f rest =>
+      rw [hfr] at h; simp only [] at h
+      have hfs : ∀ g, g ∈ f :: rest → FrameOK R g := by intro g hg; exact hi.frames g (by rw [hfr]; exact hg)
+      by_cases hply : f.ply ≠ ply
+      · rw [if_pos hply] at h; cases h
+      rw [if_neg hply] at h
+      by_cases hls : f.lastSearched ≠ some m ∨ f.current.isSome
+      · rw [if_pos hls] at h; cases h
+      rw [if_neg hls] at h
       split at h <;> try (cases h)
-      rename_i hply
       split at h <;> try (cases h)
-      rename_i hls
-      refine ⟨hi.root, hi.frames, ?_, hi.best, hi.bm⟩
+      refine ⟨hi.root, hfs, ?_, hi.best, hi.bm⟩
       intro m' hm'
       by_cases hp : ply = 0
       · subst hp
         have := head_set_zero s.pv (m :: s.pv.getD (0 + 1) []) m' hm'
         simp at this
         subst this
-        have hf := hi.frames f (by rw [hfr]; simp)
         have h0 : f.ply = 0 := by omega
-        have hl : f.lastSearched = some m := by
-          have := not_or.mp hls
-          exact Decidable.not_not.mp this.1
-        exact (hf h0).2.2 m hl
+        have hl : f.lastSearched = some m := Decidable.not_not.mp (fun hc => hls (Or.inl hc))
+        exact (hfs f (by simp) h0).2.2 m hl
       · rw [pv_set_other _ _ _ hp] at hm'; exact hi.pv0 m' hm'
-    · cases h
   | ttCut ply m flag =>
     simp only [stepEv] at h
     split at h
@@ -353,17 +391,7 @@ theorem step_iter (s s' : AState) (e : Ev) (h : stepEv s e = .ok s') (hi : IterI
     · exact hi.done x hx
   | enter _ _ _ => simp only [stepEv] at h; (repeat' (split at h)) <;> (try cases h) <;> exact ⟨hi.started, hi.done⟩
   | exit _ _ => simp only [stepEv] at h; (repeat' (split at h)) <;> (try cases h) <;> exact ⟨hi.started, hi.done⟩
-  | moves ply l =>
-    simp only [stepEv] at h
-    split at h
-    · rename_i f rest hfr
-      by_cases hply : f.ply ≠ ply
-      · simp [hply] at h
-      simp only [hply, if_false] at h
-      by_cases hsm : sameMembers l (if ply = 0 then s.rootMoves else genMoves s.pos) = true
-      · simp only [hsm, if_true] at h; cases h; exact ⟨hi.started, hi.done⟩
-      · simp [hsm] at h
-    · cases h
+  | moves _ _ => simp only [stepEv] at h; (repeat' (split at h)) <;> (try cases h) <;> exact ⟨hi.started, hi.done⟩
   | doMv _ _ => simp only [stepEv] at h; (repeat' (split at h)) <;> (try cases h) <;> exact ⟨hi.started, hi.done⟩
   | undoMv _ _ => simp only [stepEv] at h; (repeat' (split at h)) <;> (try cases h) <;> exact ⟨hi.started, hi.done⟩
   | nullDo _ => simp only [stepEv] at h; (repeat' (split at h)) <;> (try cases h) <;> exact ⟨hi.started, hi.done⟩
